@@ -10,6 +10,16 @@ import bddcore
 from bddcore import *  # noqa
 
 
+ALL_SUMMARIES = ('and', 'or', 'not', 'implies', 'ite', 'eq', 'xor', 'nor', 'nand', 'mk_const', 'var', 'exists_impl', 'exists', 'all',
+                 'aln', 'amn', 'exn', 'cmp_count', 'cmp_count_compare', 'count_leq_recursive', 'count_geq_recursive', 'count_leq',
+                 'count_lt', 'count_geq', 'count_gt', 'count_eq')
+BASE_SUMMARIES = ('and', 'or', 'not', 'implies', 'ite')
+
+
+def U(name, spec, k, **opts):
+    return (name, spec, k, opts)
+
+
 def serialise(v):
     """concrete diagram value -> the driver's notation; None when the value is not concrete"""
     v = unrc(v)
@@ -36,14 +46,28 @@ def serialise(v):
 def concrete_op_result(case, config=None):
     """run MIRSYM on a concrete case -> serialised result / 'panic' / tuple for infer"""
     I = load('lib', config)
-    k = case['k']
-    w = World(k, 'named', concrete_ids=case['ids'])
-    env, mem = new_env(I, {})
     op = case['op']
-    tts = [py_tt(t) for t in case['tts']]
-    dia = [w.canon(t) for t in tts]
     ex = case.get('extra', [])
-    ids = case['ids']
+    ids0 = case['ids']
+    # the world contains every id the case mentions (operand variables and extra symbols)
+    ids = set(ids0)
+    if op in ('var', 'exists', 'all', 'exists_impl', 'infer') and ex and ex[0] != '-':
+        ids |= {int(x) for x in ex[0].split(',')}
+    ids = sorted(ids)
+    k = len(ids)
+    w = World(k, 'named', concrete_ids=ids)
+    env, mem = new_env(I, {})
+
+    def extend(t):
+        out = []
+        for j in range(1 << k):
+            jj = 0
+            for i0, v in enumerate(ids0):
+                jj = (jj << 1) | ((j >> (k - 1 - ids.index(v))) & 1)
+            out.append(t[jj])
+        return out
+    tts = [extend(py_tt(t)) for t in case['tts']]
+    dia = [w.canon(t) for t in tts]
 
     def symof(idv):
         if idv in ids:
